@@ -1,4 +1,6 @@
-"""Unit `aggregator` (C10, embedded / keyed aggregator only): KeyedAggregator::get_or_create_accum, merge,
+"""Unit `aggregator` (C10, embedded / keyed aggregator only; type-level deviation: the stand-in trait `Key` declares its
+generic associated type `Key<'a>` as `'static`, because this Verus' lifetime pass forgets the `'static` argument of
+`Key<'static>` in the real signatures and would otherwise reject them (E0309); lifetimes have no logical content): KeyedAggregator::get_or_create_accum, merge,
 merge_ref and flush, extracted from metrique-aggregation/src/aggregator.rs.
 
 Contract (from the property statement): each merged input contributes to exactly one aggregate, the one selected
@@ -16,12 +18,13 @@ TR = "metrique-aggregation/src/traits.rs"
 PRELUDE = r'''
 use std::marker::PhantomData;
 // abstract text of a key value (what Hash + Eq / static_key_matches compare)
-pub uninterp spec fn kv<K>(k: K) -> Seq<char>;
+pub mod keytext { use vstd::prelude::*; pub uninterp spec fn kv<K>(k: K) -> Seq<char>; }
+pub use keytext::kv;
 
 pub trait CloseValue: Sized { type Closed; spec fn closed(self) -> Self::Closed; fn close(self) -> (r: Self::Closed) ensures r == self.closed(); }
 pub trait CloseEntry: CloseValue {}
 pub trait Key<Source> {
-    type Key<'a>: CloseValue + 'a;
+    type Key<'a>: CloseValue + 'static;   // (type level only) this Verus' lifetime pass forgets the 'static argument of Key<'static>; see DESIGN
     spec fn key_of(source: &Source) -> Seq<char>;
     fn from_source(source: &Source) -> (r: Self::Key<'_>) ensures kv(r) == Self::key_of(source);
     fn static_key<'a>(key: &Self::Key<'a>) -> (r: Self::Key<'static>) ensures kv(r) == kv(*key);
@@ -57,11 +60,12 @@ pub trait AggregateSink<T> { fn merge(&mut self, entry: T); }
 pub trait AggregateSinkRef<T> { fn merge_ref(&mut self, entry: &T); }
 pub trait FlushableSink { fn flush(&mut self); }
 pub struct BoxEntrySink { pub p: u8 }
+pub fn drop<T>(t: T) {}
 
 // ---- assumed: hashbrown::HashMap raw-entry API and drain over a ghost map ---------------------------
 pub mod hashbrown {
     use vstd::prelude::*;
-    use super::kv;
+    use super::keytext::kv;
     #[verifier::external_body]
     #[verifier::reject_recursive_types(K)]
     #[verifier::reject_recursive_types(V)]
@@ -152,7 +156,8 @@ pub mod hashbrown {
                     Some((k, v)) => old(self).rest().contains_key(kv(k)) && old(self).rest()[kv(k)] == v && k == old(self).key_at(kv(k))
                                     && final(self).rest() == old(self).rest().remove(kv(k))
                                     && (forall|t: Seq<char>| final(self).key_at(t) == old(self).key_at(t)),
-                    None => old(self).rest() =~= Map::<Seq<char>, V>::empty() && final(self).rest() == old(self).rest(),
+                    None => old(self).rest() =~= Map::<Seq<char>, V>::empty() && final(self).rest() == old(self).rest()
+                                    && (forall|t: Seq<char>| final(self).key_at(t) == old(self).key_at(t)),
                 }
         { unimplemented!() }
     }
@@ -188,6 +193,28 @@ ITEMS = [
          """),
     dict(kind="fn", file=AGG, impl=r"^impl < T , Sink > AggregateSink < T :: Source > for KeyedAggregator < T , Sink >", name="merge", label="KeyedAggregator::merge",
          ensures=_MERGE_POST.replace("ENTRY", "&entry")),
+    dict(kind="fn", file=AGG, impl=r"^impl < T , Sink > AggregateSinkRef < T :: Source > for KeyedAggregator < T , Sink >", name="merge_ref", label="KeyedAggregator::merge_ref",
+         ensures=_MERGE_POST.replace("ENTRY", "entry")),
+    dict(kind="fn", file=AGG, impl=r"^impl < T , Sink > FlushableSink for KeyedAggregator < T , Sink >", name="flush", label="KeyedAggregator::flush",
+         desugar_for=True, attrs=["#[verifier::exec_allows_no_decreases_clause]"],
+         ensures="""
+            // C10: a flush emits, for every key held, that key's aggregate (closed, under the closed stored key) ...
+            forall|t: Seq<char>| old(self).storage@.contains_key(t) ==>
+                was_appended(final(self).sink, AggregationResult { key: #[trigger] old(self).storage.stored_key(t).closed(), aggregated: old(self).storage@[t].closed() }),   // OBL flush_emits_every_key
+            // ... and starts over with an empty storage
+            final(self).storage@ == Map::<Seq<char>, AggregateTy<T>>::empty(),                                                    // OBL flush_empties_storage
+         """,
+         loops={1: """
+            invariant
+                self.storage@ == Map::<Seq<char>, AggregateTy<T>>::empty(),
+                self.sink == old(self).sink,
+                forall|t: Seq<char>| verif_it0.key_at(t) == old(self).storage.stored_key(t) || !old(self).storage@.contains_key(t),
+                forall|t: Seq<char>| #[trigger] verif_it0.rest().contains_key(t) ==> old(self).storage@.contains_key(t) && verif_it0.rest()[t] == old(self).storage@[t],
+                forall|t: Seq<char>| old(self).storage@.contains_key(t) && !verif_it0.rest().contains_key(t) ==>
+                    was_appended(self.sink, AggregationResult { key: #[trigger] old(self).storage.stored_key(t).closed(), aggregated: old(self).storage@[t].closed() }),
+            ensures
+                verif_it0.rest() =~= Map::<Seq<char>, AggregateTy<T>>::empty(),
+         """}),
 ]
-POSTLUDE = "\n"
-CANARY = None
+POSTLUDE = "\npub mod traits { pub use super::AggregationResult; }\n"
+CANARY = dict(fn="KeyedAggregator::get_or_create_accum", replace=("final(storage)@ == old(storage)@.insert(T::Key::key_of(entry), *final(r)),", "final(storage)@ == old(storage)@,"))
